@@ -36,6 +36,25 @@ def is_form_instance(dev, mode=64):
     return rid < 8          # registers 0..7 exist in every mode and under every encoding (legacy / VEX / EVEX)
 
 
+# Decorations / prefixes / encoding options the db form lists: a case carrying exactly one of them is an instance of the
+# form's *feature*  '<signature> +<feature>'  (own lines in the vendored list, e.g. 'zmm,zmm,zmm/m512 +er').
+_FEATURES = {"k1": "k", "k7": "k", "k1z": "kz", "k7z": "kz", "rn-sae": "er", "rd-sae": "er", "ru-sae": "er", "rz-sae": "er",
+             "sae": "sae", "lock": "lock", "xacquire-lock": "xacquire", "xrelease-lock": "xrelease", "rep": "rep", "rep-cx": "rep",
+             "repne": "repne", "vex3": "vex3", "modmr": "modmr", "modrm": "modrm", "short": "short", "long": "long", "rex": "rex"}
+_BCST_DEV = re.compile(r"^op\d=bcst(?!-wrong)")
+
+
+def x86_feature_of(dev):
+    if dev.startswith("opt="):
+        t = dev[4:]
+        if t.endswith(",mem"):
+            t = t[:-4]
+        return _FEATURES.get(t)
+    if _BCST_DEV.match(dev):
+        return "bcst"
+    return None
+
+
 # ---------------------------------------------------------------------------------------------------------------------
 # x86 near-miss mutations (E): operand size one class off, two operands swapped, illegal decoration
 # ---------------------------------------------------------------------------------------------------------------------
